@@ -1,3 +1,4 @@
+import XdsVerif.Model.Bootstrap
 import XdsVerif.Model.Pick
 import XdsVerif.Model.Fqdn
 /-! Fact record types consumed by `Generated/Facts.lean` (one per model file), gathered here. -/
